@@ -19,6 +19,7 @@ package validation
 //@ pure matrixOK(m map[string][]string) bool = forall k string :: (k in m) ==> valsOK(m[k])
 
 //@ func Validator.validateParallelismSpecWithMatrix
+//@   locals allErrs: k8s.io/apimachinery/pkg/util/validation/field.ErrorList; key: string; vals: []string
 //@   params v, withMatrix, fldPath
 //@   tags C14, C17
 //@   loop 1 invariant len(allErrs) >= 0
@@ -32,6 +33,7 @@ package validation
 //@ pure numTypes(spec *v1alpha1.ParallelismSpec) Int = (spec.WithCount != nil ? 1 : 0) + (len(spec.WithKeys) > 0 ? 1 : 0) + (len(spec.WithMatrix) > 0 ? 1 : 0)
 
 //@ func Validator.ValidateParallelismSpec
+//@   locals allErrs: k8s.io/apimachinery/pkg/util/validation/field.ErrorList; numSpecified: int
 //@   params v, spec, fldPath
 //@   tags C14, C17
 //@   requires spec != nil
@@ -117,6 +119,7 @@ package validation
 //@   ensures [C17] accepted-timezone-parses: (len(result) == 0) == tzOK(timezone)
 
 //@ func Validator.ValidateCronSchedule
+//@   locals allErrs: k8s.io/apimachinery/pkg/util/validation/field.ErrorList; expressionFields: int
 //@   params v, spec, fldPath
 //@   tags C17
 //@   requires spec != nil
